@@ -24,6 +24,8 @@ def _has_sym(a, k):
     for x in a:
         if isinstance(x, _SYM):
             return True
+        if isinstance(x, np.ndarray) and x.dtype == object:
+            return True
         if type(x) in (list, tuple):
             for y in x:
                 if isinstance(y, _SYM):
